@@ -27,6 +27,7 @@ import select
 import shutil
 import signal
 import sqlite3
+import subprocess
 import sys
 import time
 import traceback
@@ -38,7 +39,7 @@ from vf.gen import c20_site
 LEVEL = "exploration"
 RULE = ("case = one multi-process run: generated site (3-7 templates, redirects, 2-4 Lua modules, data modules, 4-9 pages) "
         "on one db file; variant grid enumerated exhaustively: {plain, backup file present, backup present + db file absent, "
-        "WAL left by a SIGKILLed predecessor} x bootstrap page {present, absent} x k workers (quick 2,3,4,8; thorough 2,4,8,12,16); "
+        "WAL left by a SIGKILLed predecessor} x worker start {os.fork, separately started interpreters with distinct PYTHONHASHSEED} x bootstrap page {present, absent} x k workers (quick 2,3,4,8; thorough 2,4,8,12,16); "
         "per case seeded random: start offsets (0-50 ms, some late 100-300 ms), per-worker delay scale (0/2/8/30 ms per traced line), "
         "page subsets and orders (Lua-first or shuffled); plus long-lived-worker cases (one or two workers pause between pages so that they "
         "stay alive ~7 s after their first Lua use while the others reach their first #invoke later; bootstrap page absent) and slow-reader cases (one worker holds a get_all_pages() cursor ~6 s "
@@ -52,7 +53,8 @@ ASSUMPTIONS = [
     "'stored pages unchanged' when a backup file exists = the pages of the backup file (what a single open serves after its restore)",
     "long-lived-worker cases: a worker that spends seconds between pages (real per-page work) is ordinary use; lifetimes overlapping by more than the 5 s busy timeout are what makes a write transaction left open by one worker observable in the others",
     "slow-reader cases: holding a get_all_pages() generator open for ~6 s is ordinary use (README iterates pages while workers run); it is what makes the WAL journal mode observable",
-    "workers are forked from the shard process (real processes, own Wtp, own sqlite connection); the shard process holds no sqlite connection at fork time",
+    "fork cases: workers are forked from the shard process (real processes, own Wtp, own sqlite connection); the shard process holds no sqlite connection at fork time",
+    "spawn cases: every worker is its own `python -m vf.props.c20 --worker` interpreter with an explicit, distinct PYTHONHASHSEED (every 4th: 'random'); default deployments have random salts, and the PYTHONHASHSEED=0 that ./check exports must not leak into workers; with a backup present their delay scale is >= 8 ms per traced line so that start-ups overlap inside the restore",
     "interwiki network fetch stubbed (vf.core.shard.prepare)",
 ]
 WALL = {"quick": 600, "thorough": 3000}
@@ -79,6 +81,8 @@ def floors(tier):
             "counters.overlap.create_db.runs": 10 if q else 300, "counters.overlap.bootstrap-window.runs": 2 if q else 50,
             "counters.variant.backup": 4, "counters.variant.wal": 4, "counters.variant.bootstrap-absent": 4,
             "counters.variant.bootstrap-present": 4, "counters.variant.slow-reader": 1, "counters.variant.long-lived-worker": 1,
+            "counters.variant.spawn": 8, "counters.spawn+backup.runs": 4, "counters.spawn+backup.restore-contended-by>=2.runs": 3,
+            "sets.hash-salts": 8,
             "counters.long-lived.lua-starts-while-bootstrapper-alive>5s": 1, "counters.variant.nodb": 1,
             "counters.bootstrap-row-added.runs": 2, "counters.restore-window-entered-by>=2.runs": 2 if q else 30,
             "sets.interleavings": 25 if q else 700, "sets.k": 4,
@@ -90,10 +94,15 @@ def floors(tier):
 def grid(tier):
     ks = [2, 3, 4, 8] if tier == "quick" else [2, 4, 8, 12, 16]
     out = []
-    for var in ("plain", "backup", "wal", "backup", "plain", "nodb", "wal", "backup"):
+    # (variant, how the workers are started): forked children share the parent's str-hash salt,
+    # separately started interpreters ("spawn") each get their own PYTHONHASHSEED
+    for var, spawn in (("plain", 0), ("backup", 0), ("wal", 0), ("backup", 1), ("plain", 1), ("nodb", None), ("wal", 1), ("backup", 1)):
         for boot in (True, False):
             for k in ks:
-                out.append({"var": var, "boot": boot, "k": k})
+                c = {"var": var, "boot": boot, "k": k}
+                if spawn or (spawn is None and boot):
+                    c["spawn"] = True
+                out.append(c)
     return out
 
 
@@ -296,13 +305,14 @@ def worker_main(wi, logpath, db, plan, go_r, go_w, ready_w):
         return None
 
     if go_r is not None:
-        os.close(go_w)
+        if go_w is not None:
+            os.close(go_w)
         os.write(ready_w, b"x")
         os.read(go_r, 1)          # released when the parent closes its write end
         t_go = mono()
         if plan["offset"] > 0:
             time.sleep(plan["offset"])
-    emit("start", mono(), os.getpid())
+    emit("start", mono(), os.getpid(), hash("c20-salt-probe") & 0xFFFFFFFF)
     from wikitextprocessor import Wtp
     ctx = None
     sys.settrace(tracer)
@@ -465,6 +475,9 @@ def plans(case):
         if case.get("slow"):
             offset = 0.35 + rng.random() * 0.4
             scale = rng.choice([0.0, 0.002, 0.008])
+        if case.get("spawn") and case["var"] in ("backup", "nodb"):
+            offset = 0.0 if rng.random() < 0.7 else rng.random() * 0.02
+            scale = rng.choice([0.008, 0.03, 0.03])
         think = 0.0
         if case.get("long"):
             scale = rng.choice([0.0, 0.002, 0.008])
@@ -543,8 +556,24 @@ def _execute(case, obs, base):
     go_r, go_w = os.pipe()
     ready_r, ready_w = os.pipe()
     pids = []
-    for w, plan in enumerate(pl):
-        pids.append(fork_child(worker_main, w, os.path.join(base, "w%d.jsonl" % w), db, plan, go_r, go_w, ready_w))
+    procs = []
+    if case.get("spawn"):
+        srng = random.Random(case["seed"] * 17 + 3)
+        salts = srng.sample(range(1, 4000000000), len(pl))
+        for w, plan in enumerate(pl):
+            argf = os.path.join(base, "w%d.args.json" % w)
+            with open(argf, "w") as f:
+                json.dump({"wi": w, "log": os.path.join(base, "w%d.jsonl" % w), "db": db, "plan": plan, "go_r": go_r, "ready_w": ready_w}, f)
+            env = dict(os.environ, PYTHONHASHSEED=str(salts[w]) if w % 4 != 3 else "random")
+            with open(os.path.join(base, "w%d.err" % w), "w") as ef:
+                p = subprocess.Popen([sys.executable, "-m", "vf.props.c20", "--worker", argf], env=env, pass_fds=(go_r, ready_w),
+                                     stdout=ef, stderr=subprocess.STDOUT,
+                                     cwd=os.path.dirname(os.path.dirname(os.path.dirname(os.path.abspath(__file__)))))
+            procs.append(p)
+            pids.append(p.pid)
+    else:
+        for w, plan in enumerate(pl):
+            pids.append(fork_child(worker_main, w, os.path.join(base, "w%d.jsonl" % w), db, plan, go_r, go_w, ready_w))
     os.close(go_r)
     os.close(ready_w)
     got = 0
@@ -561,6 +590,8 @@ def _execute(case, obs, base):
     t_go = time.monotonic()
     st = wait_all(pids, time.monotonic() + (75 if case.get("slow") or case.get("long") else 60))
     wall = time.monotonic() - t_go
+    for p in procs:
+        p.returncode = 0      # already reaped by wait_all
     if got < len(pl):
         info["harness"].append("only %d of %d workers reached the barrier" % (got, len(pl)))
 
@@ -574,10 +605,19 @@ def _execute(case, obs, base):
     pages_done = 0
     anch = {}
     ends = {}
+    salts_seen, crit_sections = [], []
     for w, (plan, lg) in enumerate(zip(pl, logs)):
         status = st.get(pids[w])
         ended = any(r[0] == "end" for r in lg)
         ends[w] = max([r[1] for r in lg if r[0] == "end"] or [float("inf")])
+        for r in lg:
+            if r[0] == "start" and len(r) > 3:
+                salts_seen.append(r[3])
+        # restore critical section of this worker: from the line after 'BEGIN EXCLUSIVE' to the lock's close line
+        evs = [(r[1], r[2]) for r in lg if r[0] == "ev"]
+        locks = [i for i, (_, l) in enumerate(evs) if l == "restore.lock"]
+        if len(locks) >= 2 and locks[0] + 1 < len(evs):
+            crit_sections.append((evs[locks[0] + 1][0], evs[locks[-1]][0], w))
         seen = {}
         t_in = {}
         for r in lg:
@@ -711,6 +751,7 @@ def _execute(case, obs, base):
                     n += 1
         return n
     ov_c, ov_b = overlaps(intervals["create_db"]), overlaps(intervals["boot"])
+    cs_overlap = overlaps(crit_sections)
 
     tags = []
     if has_bk:
@@ -723,6 +764,8 @@ def _execute(case, obs, base):
         tags.append("slow-reader")
     if case.get("long"):
         tags.append("long-lived-worker")
+    if case.get("spawn"):
+        tags.append("separately-started-interpreters")
     boot_tag = "bootstrap-present" if case["boot"] else "bootstrap-absent"
 
     # bootstrap writes: (worker, time of the add line, time of the commit line or None)
@@ -757,7 +800,7 @@ def _execute(case, obs, base):
     info.update({"crit": crit, "restorers": restorers, "raced": raced, "ov_create_db": ov_c, "ov_boot": ov_b,
                  "wall": wall, "pages_done": pages_done, "exc_types": exc_types, "anchors": anch, "boot_added": boot_added,
                  "rows": len(before), "lua_first": bool(lua_first), "workers": len(pl), "site": site,
-                 "n_events": len(events), "boot_written": len({w for _, w, l in events if l == "boot.add"}), "late_lua_starts": late_lua_starts, "race_symptoms": symptoms, "anomaly_classes": sorted({c for c, _ in anomalies})})
+                 "n_events": len(events), "boot_written": len({w for _, w, l in events if l == "boot.add"}), "late_lua_starts": late_lua_starts, "salts": salts_seen, "cs_overlap": cs_overlap, "race_symptoms": symptoms, "anomaly_classes": sorted({c for c, _ in anomalies})})
     return out, info
 
 
@@ -769,7 +812,7 @@ def signature(cls, d, raced, tags, boot_tag):
         typ, phase, sq = d["type"], d["phase"], d.get("sqlite")
         lock_like = sq == "locked" or typ in ("IntegrityError", "CpuBudget")
         if raced and not lock_like:
-            return RACE, []
+            return RACE, [t for t in tags if t == "separately-started-interpreters"]
         if sq == "locked":
             # how long the failing statement blocked tells contention that outlasted the busy timeout
             # (seconds) from a connection that does not wait at all
@@ -783,11 +826,11 @@ def signature(cls, d, raced, tags, boot_tag):
         return "worker-raises:%s@%s" % (name, phase), []
     if cls == "result":
         if raced:
-            return RACE, []
+            return RACE, [t for t in tags if t == "separately-started-interpreters"]
         return "result-differs-from-single-process:%s" % d["sub"], tags
     if cls in ("table", "integrity"):
         if raced:
-            return RACE, []
+            return RACE, [t for t in tags if t == "separately-started-interpreters"]
         return "pages-table-changed:%s" % (d["sub"] if cls == "table" else "integrity-check"), tags
     if cls == "hang":
         return "worker-hang", tags
@@ -812,12 +855,14 @@ def case_features(case):
         f.add("slow-reader")
     if case.get("long"):
         f.add("long-lived-worker")
+    if case.get("spawn"):
+        f.add("separately-started-interpreters")
     f.add("bootstrap-present" if case["boot"] else "bootstrap-absent")
     return f
 
 
 def case_tag(case):
-    return "%s/%s/k%d%s" % (case["var"], "boot" if case["boot"] else "noboot", case["k"], "/slow" if case.get("slow") else ("/long%d" % case["long"] if case.get("long") else ""))
+    return ("spawn:" if case.get("spawn") else "") + "%s/%s/k%d%s" % (case["var"], "boot" if case["boot"] else "noboot", case["k"], "/slow" if case.get("slow") else ("/long%d" % case["long"] if case.get("long") else ""))
 
 
 def run_shard(spec):
@@ -850,6 +895,16 @@ def run_shard(spec):
         obs.count("variant.bootstrap-" + ("present" if case["boot"] else "absent"))
         if case.get("slow"):
             obs.count("variant.slow-reader")
+        if case.get("spawn"):
+            obs.count("variant.spawn")
+            for h in info["salts"]:
+                obs.add("hash-salts", h)
+            if case["var"] in ("backup", "nodb"):
+                obs.count("spawn+backup.runs")
+                if len(info["restorers"]) >= 2:
+                    obs.count("spawn+backup.restore-contended-by>=2.runs")
+        if info["cs_overlap"]:
+            obs.count("restore.critical-sections-overlapped.runs")
         if case.get("long"):
             obs.count("variant.long-lived-worker")
             obs.count("long-lived.lua-starts-while-bootstrapper-alive>5s", info["late_lua_starts"])
@@ -914,3 +969,27 @@ def replay(case, tries=6):
                     "details": [(r, m) for r, _, m in viol[:10]], "attempt": i + 1,
                     "critical_event_order": info.get("crit")}
     return {"violations": [], "attempts": tries, "runs": runs}
+
+
+def _spawned_worker(argf):
+    """Entry point of a separately started worker interpreter (spawn cases)."""
+    with open(argf) as f:
+        a = json.load(f)
+    from vf.core import shard
+    shard.prepare()
+    import wikitextprocessor  # noqa: F401
+    labels()
+    watch_anchors()
+    worker_main(a["wi"], a["log"], a["db"], a["plan"], a["go_r"], None, a["ready_w"])
+
+
+if __name__ == "__main__":
+    if len(sys.argv) == 3 and sys.argv[1] == "--worker":
+        rc = 3
+        try:
+            _spawned_worker(sys.argv[2])
+            rc = 0
+        except BaseException:
+            traceback.print_exc()
+        sys.stdout.flush()
+        os._exit(rc)
